@@ -265,6 +265,10 @@ def run(run: Run):
     run.guard('C08.R4', r4, run, src, rt)
     from . import c02
     borrow(run, 'C08.R5', c02.r3, src)
+    from .common import check_per_instance_state
+    run.rule('C08.R6', 'runtime state is per instance: one executor cannot change what another one reports')
+    run.guard('C08.R6', check_per_instance_state, run, 'C08.R6', get_runtime(get_source()))
+    run.floor('C08.R6', 6)
     run.floor('C08.R1', 100)
     run.floor('C08.R2', 4)
     run.floor('C08.R3', 4)
